@@ -218,6 +218,12 @@ class RuntimeV1_0(Runtime):
         Returns:
             List[dict]: The list of computed next steps.
         """
+        # Flows defined by `start_flow` events are part of the history: make sure this instance
+        # knows every one of them (another instance may have processed the event).
+        for event in events:
+            if event["type"] == "start_flow" and "flow_body" in event:
+                self._register_dynamic_flow(event)
+
         next_steps = compute_next_steps(
             events,
             self.flow_configs,
@@ -469,6 +475,21 @@ class RuntimeV1_0(Runtime):
             log.info(f"Failed to get response from {action_name} due to exception {e}")
         return result, status
 
+    def _register_dynamic_flow(self, event: dict):
+        """Parse and register the flow carried by a `start_flow` event (once per body)."""
+        flow_id = event["flow_id"]
+        body = event["flow_body"]
+        known = self.__dict__.setdefault("_dynamic_flow_bodies", {})
+        if known.get(flow_id) == body and flow_id in self.flow_configs:
+            return
+        text = "define flow " + flow_id + ":\n" + indent(body, "  ")
+        parsed_data = parse_colang_file("dynamic.co", content=text)
+        assert len(parsed_data["flows"]) == 1
+        flow = parsed_data["flows"][0]
+        flow["elements"].insert(0, {"_type": "start_flow", "flow_id": flow_id})
+        self._load_flow_config(flow)
+        known[flow_id] = body
+
     async def _process_start_flow(
         self, events: List[dict], processing_log: List[dict]
     ) -> List[dict]:
@@ -483,28 +504,7 @@ class RuntimeV1_0(Runtime):
             List[dict]: The list of next steps.
         """
 
-        event = events[-1]
-
-        flow_id = event["flow_id"]
-
-        # Up to this point, the body will be the sequence of instructions.
-        # We need to alter it to be an actual flow definition, i.e., add `define flow xxx`
-        # and intent the body.
-        body = event["flow_body"]
-        body = "define flow " + flow_id + ":\n" + indent(body, "  ")
-
-        # We parse the flow
-        parsed_data = parse_colang_file("dynamic.co", content=body)
-
-        assert len(parsed_data["flows"]) == 1
-        flow = parsed_data["flows"][0]
-
-        # To make sure that the flow will start now, we add a start_flow element at
-        # the beginning as well.
-        flow["elements"].insert(0, {"_type": "start_flow", "flow_id": flow_id})
-
-        # We add the flow to the list of flows.
-        self._load_flow_config(flow)
+        self._register_dynamic_flow(events[-1])
 
         # And we compute the next steps. The new flow should match the current event,
         # and start.
